@@ -2,6 +2,7 @@
    gaps, the period being expressed in the unit of the time-stamps. *)
 From Coq Require Import QArith List.
 From RV Require Import Jitter.
+From RV Require Val Syntax Rho Offline ListFacts OfflineCorrect Online OnlineCorrect.
 Import ListNotations.
 Local Open Scope Q_scope.
 
@@ -19,6 +20,32 @@ Theorem C13_count_offline :
     joff p tol norm ts = count_bad (p / norm) tol ts.
 Proof. exact jitter_offline. Qed.
 Print Assumptions C13_count_offline.
+
+(* "The robustness values are not affected by the jitter": the offline monitor pairs the time-stamps with values that do not
+   depend on them (two time columns of the same length give the same values), and update() of the online monitor does not read
+   the time-stamp at all (the model's mon_run takes no time argument: C02_online) *)
+Theorem C13_values_independent_of_stamps :
+  forall (VS : Val.Val) (AR : Val.Arith VS) (pk : Syntax.formula -> Syntax.formula -> Rho.pkind) (T T' : Type)
+         (p : Syntax.formula) (ts : list T) (ts' : list T') (w : Rho.trace),
+    (1 <= length ts)%nat -> length ts' = length ts -> Syntax.wf_bounds p = true -> OfflineCorrect.wf_trace p w (length ts) ->
+    exists r r', Offline.evaluate AR pk p ts w = Offline.Ok r /\ Offline.evaluate AR pk p ts' w = Offline.Ok r' /\
+                 map snd r = map snd r' /\ map fst r = ts /\ map fst r' = ts'.
+Proof.
+  intros VS AR pk T T' p ts ts' w Hn Hl Hb Hw.
+  exists (combine ts (ListFacts.tab (Rho.rho AR pk p w (length ts)) (length ts))),
+         (combine ts' (ListFacts.tab (Rho.rho AR pk p w (length ts')) (length ts'))).
+  assert (Hn' : (1 <= length ts')%nat) by (rewrite Hl; exact Hn).
+  assert (Hw' : OfflineCorrect.wf_trace p w (length ts')) by (rewrite Hl; exact Hw).
+  split; [apply OfflineCorrect.evaluate_correct; assumption|].
+  split; [apply OfflineCorrect.evaluate_correct; assumption|].
+  assert (L : forall (A : Type) (l : list A) (k : list Val.V), length k = length l -> map snd (combine l k) = k /\ map fst (combine l k) = l).
+  { intros A l. induction l as [|a l IH]; intros [|b k] Hk; cbn in *; try discriminate; [split; reflexivity|].
+    destruct (IH k ltac:(congruence)) as [E1 E2]. rewrite E1, E2. split; reflexivity. }
+  destruct (L T ts (ListFacts.tab (Rho.rho AR pk p w (length ts)) (length ts)) (ListFacts.tab_length _ _)) as [A1 A2].
+  destruct (L T' ts' (ListFacts.tab (Rho.rho AR pk p w (length ts')) (length ts')) (ListFacts.tab_length _ _)) as [B1 B2].
+  rewrite A1, B1, A2, B2, Hl. repeat split; reflexivity.
+Qed.
+Print Assumptions C13_values_independent_of_stamps.
 
 Example C13_nonvacuous :
   (* period 500 ms, default unit s: norm = 10^9/10^6; stamps 0, 0.5, 1.25, 1.75: one bad gap *)
